@@ -453,6 +453,78 @@ async fn h11c_case(out: &mut Out, r: &mut Rng) {
     }
 }
 
+/// CONNECT with "Proxy-Protocol: udp" (inline channel): the frames a client pipelines behind the request head - in the same
+/// segment or cut anywhere - are the frames the relay gets, whatever the segmentation.
+async fn h11c_udp_case(out: &mut Out, r: &mut Rng) {
+    use crate::context::ContextRefOps;
+    let fm = gen_frames(r);
+    let head = b"CONNECT 0.0.0.0:53 HTTP/1.1\r\nProxy-Protocol: udp\r\n\r\n".to_vec();
+    let n = head.len();
+    let mut full = head.clone();
+    full.extend_from_slice(&fm.bytes);
+    let mut cuts: Vec<usize> = match r.below(5) {
+        0 => vec![],                // everything in one segment
+        1 => vec![n],               // frames in their own segment
+        2 => vec![1 + r.below(full.len() - 1)],
+        3 => (1..full.len().min(400)).collect(),
+        _ => {
+            let mut c: Vec<usize> = (0..1 + r.below(6)).map(|_| 1 + r.below(full.len() - 1)).collect();
+            c.sort();
+            c.dedup();
+            c
+        }
+    };
+    cuts.sort();
+    cuts.dedup();
+    let pending = r.chance(1, 2);
+    out.case();
+    let contexts = Arc::new(crate::context::GlobalState::default());
+    let ctx = contexts.create_context("h".into(), "127.0.0.1:1".parse().unwrap()).await;
+    let client = ScriptedIo::cut(&full, &cuts, pending);
+    ctx.write().await.set_client_stream(make_buffered_stream(client.clone()));
+    let (tx, mut rx) = tokio::sync::mpsc::channel(4);
+    if let Err(e) = h11c_handshake(ctx.clone(), tx, |_, _| async { bail!("not supported") }).await {
+        out.violation("h11c handshake (udp channel): valid CONNECT rejected under segmentation".into(), serde_json::json!({"cuts": cuts, "error": e.to_string()}));
+        return;
+    }
+    let got = rx.recv().await.unwrap();
+    if got.read().await.feature() != Feature::UdpForward {
+        out.violation("h11c handshake (udp channel): feature depends on segmentation".into(), serde_json::json!({"cuts": cuts}));
+        return;
+    }
+    got.write().await.set_connector("x".into());
+    got.on_connect().await;
+    got.write().await.set_server_frames(frames_from_stream(0, ScriptedIo::new(vec![], false)));
+    let frames = got.write().await.take_frames();
+    let ((mut frd, _fwr), _server) = match frames {
+        Some(f) => f,
+        None => {
+            out.violation("h11c handshake (udp channel): no frame channel after a successful handshake".into(), serde_json::json!({"cuts": cuts}));
+            return;
+        }
+    };
+    let mut v = vec![];
+    loop {
+        match frd.read().await {
+            Ok(Some(f)) => v.push(frame_render(&f)),
+            Ok(None) => break,
+            Err(e) => {
+                v.push(format!("error:{}", e));
+                break;
+            }
+        }
+    }
+    let rendered = v.join(";");
+    if rendered != fm.expect {
+        out.violation(
+            "h11c handshake (udp channel): frames pipelined behind the request are lost or altered".into(),
+            serde_json::json!({"cuts": cuts, "head_len": n, "pending_between": pending, "frames_sent": fm.expect.chars().take(200).collect::<String>(), "frames_read": rendered.chars().take(200).collect::<String>()}),
+        );
+        return;
+    }
+    out.nontrivial(&("h11c-udp", &fm.bytes[..fm.bytes.len().min(64)], &cuts, pending));
+}
+
 pub async fn run(args: &Args) {
     let mut out = Out::new(
         "C12",
@@ -487,6 +559,7 @@ pub async fn run(args: &Args) {
     }
     for _ in 0..args.n(10_000, 300_000) {
         h11c_case(&mut out, &mut rng).await;
+        h11c_udp_case(&mut out, &mut rng).await;
     }
     out.finish();
 }
